@@ -251,3 +251,141 @@ pub fn apply(op: u8, k: usize, multi: bool, t: &mut LeanString, m: &mut ModelStr
         }
     }
 }
+
+/// `try_` forms: returns true when the call returned Ok (and then the model was advanced).
+/// On `Err` neither the model nor - if the crate is right - the string changed.
+pub fn apply_try(op: u8, k: usize, multi: bool, t: &mut LeanString, m: &mut ModelStr) -> bool {
+    match op {
+        PUSH | EXTEND_CHAR => {
+            let c = any_char();
+            if t.try_push(c.c).is_ok() {
+                m.push_bytes(&c.bytes[..c.w]);
+                true
+            } else {
+                false
+            }
+        }
+        PUSH_STR => {
+            let s = any_str(k, multi);
+            if t.try_push_str(s.as_str()).is_ok() {
+                m.push_bytes(s.bytes());
+                true
+            } else {
+                false
+            }
+        }
+        POP => match t.try_pop() {
+            Ok(r) => {
+                let e = m.pop();
+                match (r, e) {
+                    (None, None) => {}
+                    (Some(c), Some(x)) => assert!(c as u32 == x, "[RET] try_pop() returned a different char than String::pop"),
+                    _ => assert!(false, "[RET] try_pop() Some/None differs from String::pop"),
+                }
+                true
+            }
+            Err(_) => false,
+        },
+        REMOVE => {
+            let idx: usize = kani::any();
+            kani::assume(!m.remove_panics(idx));
+            match t.try_remove(idx) {
+                Ok(c) => {
+                    let x = m.remove(idx);
+                    assert!(c as u32 == x, "[RET] try_remove() returned a different char than String::remove");
+                    true
+                }
+                Err(_) => false,
+            }
+        }
+        INSERT => {
+            let idx: usize = kani::any();
+            kani::assume(!m.insert_panics(idx));
+            let c = if k == 0 { any_char() } else { rep_char(k) };
+            if t.try_insert(idx, c.c).is_ok() {
+                m.insert_bytes(idx, &c.bytes[..c.w]);
+                true
+            } else {
+                false
+            }
+        }
+        INSERT_STR => {
+            let idx: usize = kani::any();
+            kani::assume(!m.insert_panics(idx));
+            let s = any_str(k, multi);
+            if t.try_insert_str(idx, s.as_str()).is_ok() {
+                m.insert_bytes(idx, s.bytes());
+                true
+            } else {
+                false
+            }
+        }
+        TRUNCATE => {
+            let n: usize = kani::any();
+            kani::assume(!m.truncate_panics(n));
+            if t.try_truncate(n).is_ok() {
+                m.truncate(n);
+                true
+            } else {
+                false
+            }
+        }
+        RETAIN => {
+            let bits: u64 = kani::any();
+            let mut keep = [false; MCAP];
+            let mut q = 0;
+            while q < m.bound {
+                keep[q] = (bits >> q) & 1 == 1;
+                q += 1;
+            }
+            let mut i = 0;
+            let r = t.try_retain(|_c| {
+                let r = keep[i];
+                i += 1;
+                r
+            });
+            if r.is_ok() {
+                m.retain(&keep);
+                true
+            } else {
+                assert!(i == 0, "[C05] try_retain called the predicate although it reports failure");
+                false
+            }
+        }
+        RESERVE => {
+            let n: usize = kani::any();
+            kani::assume(n <= SMALL);
+            if t.try_reserve(n).is_ok() {
+                assert!(t.capacity() >= t.len() + n, "[CAP] capacity() < len()+n after try_reserve(n)");
+                true
+            } else {
+                false
+            }
+        }
+        SHRINK_TO => {
+            let n: usize = kani::any();
+            t.try_shrink_to(n).is_ok()
+        }
+        _ => t.try_shrink_to_fit().is_ok(),
+    }
+}
+
+/// Plain (panicking) forms of the operations that can allocate; used with the failure window open.
+pub fn apply_plain_alloc(op: u8, k: usize, multi: bool, t: &mut LeanString, m: &mut ModelStr) {
+    apply(op, k, multi, t, m)
+}
+
+/// Iterator with a solver-chosen `size_hint` lower bound and at most one item.
+pub struct Hint {
+    pub lo: usize,
+    pub item: Option<char>,
+}
+impl Iterator for Hint {
+    type Item = char;
+    fn next(&mut self) -> Option<char> {
+        self.item.take()
+    }
+    fn size_hint(&self) -> (usize, Option<usize>) {
+        (self.lo, None)
+    }
+}
